@@ -386,7 +386,7 @@ func runReuse(r *core.Run) {
 			}
 			for v, truth := range boolKnown(b, nil) {
 				if c, isC := v.(*ssa.Call); isC && truth {
-					if g := c.Call.StaticCallee(); g != nil && recvName(g) == "Lexer" {
+					if g := c.Call.StaticCallee(); g != nil && g.Signature.Recv() != nil && core.RelPkg(fnPkg(g)) == "css" {
 						identScanners[g] = true
 					}
 				}
@@ -394,7 +394,8 @@ func runReuse(r *core.Run) {
 		}
 	}
 	isScannerFor := func(fnName string, g *ssa.Function) bool {
-		if g == nil || recvName(g) != "Lexer" || core.RelPkg(fnPkg(g)) != "css" || !own[g] || g.Name() == "Next" {
+		// a method of the lexer, or of a type of the package that wraps the cursor (type scanner struct{ *parse.Input })
+		if g == nil || g.Signature.Recv() == nil || core.RelPkg(fnPkg(g)) != "css" || !own[g] || g.Name() == "Next" {
 			return false
 		}
 		if len(identScanners) == 0 {
@@ -462,6 +463,10 @@ func runReuse(r *core.Run) {
 		}
 		ok := newLexer != nil && scan != nil && input != nil &&
 			input.Call.Args[0] == argParam && newLexer.Call.Args[0] == ssa.Value(input) && len(scan.Call.Args) > 0 && scan.Call.Args[0] == ssa.Value(newLexer)
+		if !ok && newLexer == nil && scan != nil && input != nil && input.Call.Args[0] == argParam && len(scan.Call.Args) > 0 {
+			// the scanner is a method of a cursor wrapper built in place over the fresh input: scanner{parse.NewInputBytes(arg)}
+			ok = wrapsFreshInput(scan.Call.Args[0], input)
+		}
 		r.Check(ok, "css."+tc.fn+" runs the lexer's own "+tc.scanner+" on a fresh lexer over the argument", fn.Pos(), "", "the helper no longer delegates to one of the scanner methods that Lexer.Next itself uses, on NewLexer(NewInputBytes(arg)): agreement with the lexer is no longer by construction")
 		// result: Pos() == len(b)
 		ret := singleReturn(body)
@@ -483,4 +488,35 @@ func runReuse(r *core.Run) {
 		}
 		r.Check(good, "css."+tc.fn+" is true iff the scan ends at len(arg)", fn.Pos(), "", "result is not `<cursor>.Pos() == len(arg)`")
 	}
+}
+
+// wrapsFreshInput: recv is a struct value (or pointer to a local struct) one of whose fields was set to `input` and
+// that is used for nothing else before the call.
+func wrapsFreshInput(recv ssa.Value, input *ssa.Call) bool {
+	var al *ssa.Alloc
+	switch x := recv.(type) {
+	case *ssa.Alloc:
+		al = x
+	case *ssa.UnOp:
+		if x.Op == token.MUL {
+			al, _ = x.X.(*ssa.Alloc)
+		}
+	}
+	if al == nil || al.Referrers() == nil {
+		return false
+	}
+	if _, isSt := derefType(al.Type()).Underlying().(*types.Struct); !isSt {
+		return false
+	}
+	holds := false
+	for _, ref := range *al.Referrers() {
+		if fa, ok := ref.(*ssa.FieldAddr); ok && fa.Referrers() != nil {
+			for _, r2 := range *fa.Referrers() {
+				if st, isSt := r2.(*ssa.Store); isSt && st.Addr == ssa.Value(fa) && st.Val == ssa.Value(input) {
+					holds = true
+				}
+			}
+		}
+	}
+	return holds
 }
